@@ -16,10 +16,10 @@ Proof. intros R. destruct (Retry_InvB.invAll_reach s R) as (IA & _). exact (Retr
 Lemma f_srnc_can_inv x n b : f_srnc x = Some (n, b) -> fcancelled n = true -> fcancelled x = true.
 Proof. destruct x; simpl; intros H; inversion H; subst; auto. Qed.
 
-(* a delegate future only becomes cancelled through RetryFuture.cancel(), whose thread then goes on to
-   cancel the retry future itself *)
+(* a delegate future becomes cancelled through RetryFuture.cancel(), whose thread then goes on to cancel the retry
+   future itself, or because somebody else cancelled it (EEnvCancel; ghost HEnvCancel) *)
 Lemma dcancel_new s e s' : PI s -> step0 s e = Some s' -> forall d, d < ndel s' -> fcancelled (ds s' d) = true ->
-  (d < ndel s /\ fcancelled (ds s d) = true) \/ exists c, fcpre s' (dfor s' d) 0 (thr s' c) = true.
+  (d < ndel s /\ fcancelled (ds s d) = true) \/ (exists c, fcpre s' (dfor s' d) 0 (thr s' c) = true) \/ envc s' d.
 Proof.
   intros HP H. s0inv H; auto.
   all: try (match goal with inl : option outcome |- _ => destruct inl end).
@@ -28,11 +28,11 @@ Proof.
   all: unfold log, set_prog; simpl; auto.
   all: intros dd Hd Hc.
   - destruct Hi as (Hr & Ed & Ej & Hd0). destruct (Nat.eq_dec dd d0) as [->|Nd].
-    + right. exists t. rewrite upd_same. simpl. rewrite upd_same, (f_cancel_can _ _ Heqp).
+    + right. left. exists t. rewrite upd_same. simpl. rewrite upd_same, (f_cancel_can _ _ Heqp).
       destruct (pi_del s HP r d0 Hr Ed) as [_ ->]. rewrite Ej, Nat.eqb_refl. reflexivity.
     + left. rewrite (upd_other _ _ _ _ Nd) in Hc. auto.
   - destruct Hi as (Hr & Ed & Ej & Hd0). destruct (Nat.eq_dec dd d0) as [->|Nd].
-    + right. exists t. rewrite upd_same. simpl.
+    + right. left. exists t. rewrite upd_same. simpl.
       destruct (pi_del s HP r d0 Hr Ed) as [_ ->]. rewrite Ej, Nat.eqb_refl. reflexivity.
     + left. rewrite (upd_other _ _ _ _ Nd) in Hc. auto.
   - left. destruct (Nat.eq_dec dd (ndel s)) as [->|Nd]; [rewrite upd_same in Hc; discriminate Hc|].
@@ -45,18 +45,22 @@ Proof.
   - left. split; [exact Hd|]. destruct (Nat.eq_dec dd d) as [->|Nd].
     + rewrite upd_same in Hc. apply f_set_fin in Heqo0. subst f. discriminate Hc.
     + rewrite (upd_other _ _ _ _ Nd) in Hc. exact Hc.
+  - destruct (Nat.eq_dec dd d) as [->|Nd].
+    + right. right. exists (clock s). left. reflexivity.
+    + left. rewrite (upd_other _ _ _ _ Nd) in Hc. auto.
 Qed.
 
 Definition DC (s : st) : Prop := forall d, d < ndel s -> fcancelled (ds s d) = true ->
-  fdone (rs s (dfor s d)) = true \/ exists c, fcpre s (dfor s d) 0 (thr s c) = true.
+  fdone (rs s (dfor s d)) = true \/ (exists c, fcpre s (dfor s d) 0 (thr s c) = true) \/ envc s d.
 
 Lemma DC_step0 s e s' : DC s -> PI s -> (forall d, d < ndel s -> dfor s d < nfut s) -> step0 s e = Some s' -> DC s'.
 Proof.
   intros HD HP HF H d Hd Hc. pose proof (MONO_step0 _ _ _ H) as HM.
   destruct (dcancel_new s e s' HP H d Hd Hc) as [[Hd0 Hc0]|N]; [|right; exact N].
-  rewrite (mo_dfor _ _ HM d Hd0). destruct (HD d Hd0 Hc0) as [A|[c A]].
+  rewrite (mo_dfor _ _ HM d Hd0). destruct (HD d Hd0 Hc0) as [A|[[c A]|A]].
   - left. apply (mo_rdone _ _ HM); [apply HF; exact Hd0|exact A].
-  - destruct (fcpre_step s e s' _ c H HP A) as [F|F]; [right; exists c; exact F|left; exact F].
+  - destruct (fcpre_step s e s' _ c H HP A) as [F|F]; [right; left; exists c; exact F|left; exact F].
+  - right. right. eapply envc_step0; eassumption.
 Qed.
 
 Lemma DC_reach s : reachable_from step init s -> DC s.
@@ -65,7 +69,8 @@ Proof.
   - intros d Hd. simpl in Hd. lia.
   - intros s0 e s' R IH H. apply step_split in H. destruct H as (s1 & Ht & H).
     apply tick_eq in Ht. subst s1. eapply DC_step0; [| | |exact H].
-    + intros d Hd Hc. destruct (IH d Hd Hc) as [A|[c A]]; [left; exact A|right; exists c; simpl; rewrite fcpre_tick; exact A].
+    + intros d Hd Hc. destruct (IH d Hd Hc) as [A|[[c A]|A]];
+        [left; exact A|right; left; exists c; simpl; rewrite fcpre_tick; exact A|right; right; exact A].
     + apply PI_tick, PI_reach, R.
     + simpl. apply (dfor_lt s0 R).
 Qed.
@@ -82,12 +87,13 @@ Lemma retry_no_lost_core s tau since : reachable_from step init s -> quiescent s
   forall j, j < nfut s -> fdone (rs s j) = false ->
   exists r, In r (jobs s) /\ jf (recs s r) = j /\
     ((exists d, jdel (recs s r) = Some d /\ d < ndel s /\ fdone (ds s d) = false /\ dcb s d = true) \/
-     jdel (recs s r) = None).
+     jdel (recs s r) = None \/
+     (exists d, jdel (recs s r) = Some d /\ d < ndel s /\ fcancelled (ds s d) = true /\ envc s d)).
 Proof.
   intros R Q j Hj Hnd. pose proof (quiescent_prog s tau since R Q) as QP.
   assert (NA : forall d r t, chainhd d r (thr s t) = false)
     by (intros d r t; destruct (QP t) as [-> | ->]; reflexivity).
-  destruct (LI_reach s R j Hj Hnd) as [W|[W|[W|[W|[W|W]]]]].
+  destruct (LI_reach s R j Hj Hnd) as [W|[W|[W|[W|[W|[W|W]]]]]].
   - destruct W as (r & A & B & C). exists r. auto.
   - destruct W as (r & d & A & B & C & D). exists r. split; [exact A|]. split; [exact B|]. left. exists d.
     assert (Hd : d < ndel s) by (apply (pi_del s (PI_reach s R) r d); [apply (ri_jobs s (RI_reach s R)); exact A|exact C]).
@@ -97,13 +103,16 @@ Proof.
   - destruct W as (t & C). destruct (QP t) as [E|E]; rewrite E in C; discriminate.
   - destruct W as (t & r & C & _). destruct (QP t) as [E|E]; rewrite E in C; discriminate.
   - destruct W as (t & C). destruct (QP t) as [E|E]; rewrite E in C; discriminate.
+  - destruct W as (r & d & A & B & C & D & E). exists r. split; [exact A|]. split; [exact B|]. right. right. exists d.
+    assert (Hd : d < ndel s) by (apply (pi_del s (PI_reach s R) r d); [apply (ri_jobs s (RI_reach s R)); exact A|exact C]).
+    auto.
 Qed.
 
-(* at quiescence a cancelled delegate future belongs to a retry future that is done: within this machine
-   delegate futures are only ever cancelled by RetryFuture.cancel() *)
+(* at quiescence a cancelled delegate future belongs to a retry future that is done, or it was cancelled by somebody
+   else (EEnvCancel).  (Before the machine had EEnvCancel the second alternative did not exist.) *)
 Lemma retry_cancelled_delegate_resolved s tau since : reachable_from step init s -> quiescent s tau since ->
-  forall d, d < ndel s -> fcancelled (ds s d) = true -> fdone (rs s (dfor s d)) = true.
+  forall d, d < ndel s -> fcancelled (ds s d) = true -> fdone (rs s (dfor s d)) = true \/ envc s d.
 Proof.
-  intros R Q d Hd Hc. destruct (DC_reach s R d Hd Hc) as [A|[c A]]; [exact A|].
+  intros R Q d Hd Hc. destruct (DC_reach s R d Hd Hc) as [A|[[c A]|A]]; [left; exact A| |right; exact A].
   destruct (quiescent_prog s tau since R Q c) as [E|E]; rewrite E in A; discriminate.
 Qed.
